@@ -203,12 +203,50 @@ pub fn gen_points(r: &mut Rng, d: usize, n: usize, arb: bool, fam: u64) -> (Stri
                     .collect(),
             )
         }
+        12 => {
+            // f64 coordinates beyond the binary32 range on one side or on both (+-inf as f32),
+            // mixed with ordinary points
+            let both = r.chance(1, 2);
+            let neg = r.chance(1, 2);
+            (
+                "beyond_f32",
+                (0..n)
+                    .map(|i| {
+                        (0..d)
+                            .map(|j| {
+                                if j == 0 && (i < 2 || r.chance(1, 6)) {
+                                    let s = if both {
+                                        if i % 2 == 0 { 1.0 } else { -1.0 }
+                                    } else if neg {
+                                        -1.0
+                                    } else {
+                                        1.0
+                                    };
+                                    s * *r.pick(&[1e39f64, 3.5e38, 1e60])
+                                } else {
+                                    r.range(-8, 8) as f64
+                                }
+                            })
+                            .collect()
+                    })
+                    .collect(),
+            )
+        }
         _ => {
-            // huge magnitudes: min + max overflows binary32 (class rcb-midpoint-overflow)
+            // huge magnitudes: same sign (min + max overflows binary32) or opposite signs
+            // (the extent max - min overflows)
+            let opposite = r.chance(1, 2);
             (
                 "huge",
                 (0..n)
-                    .map(|_| (0..d).map(|_| (r.range(18, 33) as f64) * 1e37).collect())
+                    .map(|_| {
+                        (0..d)
+                            .map(|_| {
+                                let m = (r.range(18, 33) as f64) * 1e37;
+                                if opposite && r.chance(1, 2) { -m } else { m }
+                            })
+                            .collect()
+                    })
                     .collect(),
             )
         }
@@ -236,9 +274,8 @@ pub fn gen_weights(r: &mut Rng, n: usize) -> (String, Vec<i64>) {
 }
 
 /// `c04`: emphasise balance (iter_count >= 1, outliers / clusters / skewed weights).
-pub fn gen_case(r: &mut Rng, tier: &str, c04: bool, big_ok: bool) -> Case {
+pub fn gen_case(r: &mut Rng, _tier: &str, c04: bool, big: bool) -> Case {
     let d = if r.chance(1, 2) { 2 } else { 3 };
-    let big = big_ok && r.chance(1, if tier == "thorough" { 250 } else { 400 });
     let n = if big {
         *r.pick(&[8192usize, 8193, 9000])
     } else {
@@ -248,11 +285,11 @@ pub fn gen_case(r: &mut Rng, tier: &str, c04: bool, big_ok: bool) -> Case {
             _ => r.range(17, 40) as usize,
         }
     };
-    let arb = r.chance(2, 5);
+    let arb = !big && r.chance(2, 5);
     let fam = if big {
         *r.pick(&[0u64, 1, 4, 6])
     } else {
-        let f = r.below(if c04 { 56 } else { 48 });
+        let f = r.below(if c04 { 59 } else { 51 });
         if f < 28 {
             f % 7
         } else if f < 34 {
@@ -261,6 +298,8 @@ pub fn gen_case(r: &mut Rng, tier: &str, c04: bool, big_ok: bool) -> Case {
             10 // signed zeros
         } else if f < 48 {
             11 // dense cluster
+        } else if f < 51 {
+            12 // coordinates beyond the binary32 range
         } else {
             *r.pick(&[1u64, 5, 5, 6])
         }
@@ -311,6 +350,59 @@ pub fn gen_case(r: &mut Rng, tier: &str, c04: bool, big_ok: bool) -> Case {
         ws,
         plen,
         wf64,
+    }
+}
+
+/// Large structured inputs (n >= 8192: rayon splits the fold of the root node into chunks of
+/// >= 4096): every chunk looks partitioned / holds a candidate on its own, the node as a whole
+/// does not.  `seq`: running number of the structured case (selects pattern, size, depth).
+pub fn gen_big_structured(r: &mut Rng, seq: usize) -> Case {
+    let n = [8192usize, 16384, 8193, 12000, 20000][seq % 5];
+    let pat = seq % 6;
+    let k = 1 + seq % 3;
+    let d = 2 + (seq / 6) % 2;
+    let m = (n + 1) / 2;
+    let x_of = |i: usize| -> f64 {
+        match pat {
+            0 => (i % m) as f64,              // the sorted list given twice
+            1 => (i % 4096) as f64,           // rows of 4096 listed left to right
+            2 => {
+                // outer quarters of the x range in the first half of the array, inner in the second
+                let q = n / 4;
+                if i < n / 2 {
+                    if i < q { i as f64 } else { (i + n / 2) as f64 }
+                } else {
+                    (i - n / 2 + q) as f64
+                }
+            }
+            3 => i as f64,                    // strictly increasing
+            4 => (n - i) as f64,              // strictly decreasing
+            _ => ((i % m) / 3) as f64,        // sorted with duplicates, given twice
+        }
+    };
+    let name = ["sorted_twice", "rows_of_4096", "outer_then_inner", "increasing", "decreasing", "sorted_dups_twice"][pat];
+    let pts: Vec<Vec<f64>> = (0..n)
+        .map(|i| {
+            (0..d)
+                .map(|j| match j {
+                    0 => x_of(i),
+                    1 => if pat == 1 { (i / 4096) as f64 } else { (i % 7) as f64 },
+                    _ => (i % 3) as f64,
+                })
+                .collect()
+        })
+        .collect();
+    let ws: Vec<i64> = if seq % 4 == 3 { (0..n).map(|_| r.range(1, 3)).collect() } else { vec![1; n] };
+    Case {
+        family: format!("big:{}", name),
+        rib: false,
+        d,
+        k,
+        tol: if seq % 2 == 0 { 0.05 } else { 0.0 },
+        pts,
+        ws,
+        plen: n,
+        wf64: false,
     }
 }
 
@@ -385,7 +477,7 @@ pub fn run_case(c: &Case, idx: usize) -> Outcome {
     }
     // big inputs: two pool sizes; every 4th small case: all six; otherwise 1 thread + two rotating sizes
     let pools: Vec<usize> = if c.pts.len() >= 4096 {
-        vec![POOLS[idx % POOLS.len()], POOLS[(idx + 3) % POOLS.len()]]
+        vec![1, 2, 4, 16]
     } else if idx % 4 == 0 {
         POOLS.to_vec()
     } else {
@@ -464,12 +556,34 @@ pub fn kf_class(pts: &[Vec<f64>], d: usize) -> Option<&'static str> {
 
 // ------------------------------------------------ writers
 
+/// One f64 as the Coq term `Cz m e` (= m * 2^e, small odd m: cheap to parse) or `Cb bits`.
+pub fn coq_coord(x: f64) -> String {
+    let bits = x.to_bits();
+    if x == 0.0 && bits == 0 {
+        return "Cz 0 0".to_string();
+    }
+    if x.is_finite() && x != 0.0 {
+        let e_raw = ((bits >> 52) & 0x7ff) as i64;
+        let frac = bits & ((1u64 << 52) - 1);
+        let (mut m, mut e) = if e_raw == 0 { (frac, -1074i64) } else { (frac | (1u64 << 52), e_raw - 1075) };
+        let tz = m.trailing_zeros() as i64;
+        m >>= tz;
+        e += tz;
+        if m < (1u64 << 31) {
+            let sm = if x < 0.0 { format!("(-{})", m) } else { m.to_string() };
+            let se = if e < 0 { format!("({})", e) } else { e.to_string() };
+            return format!("Cz {} {}", sm, se);
+        }
+    }
+    format!("Cb {}", bits)
+}
+
 pub fn coq_points(pts: &[Vec<f64>]) -> String {
     let v: Vec<String> = pts
         .iter()
-        .map(|p| format!("[{}]", p.iter().map(|x| x.to_bits().to_string()).collect::<Vec<_>>().join(";")))
+        .map(|p| format!("[{}]", p.iter().map(|x| coq_coord(*x)).collect::<Vec<_>>().join(";")))
         .collect();
-    format!("[{}]%N", v.join(";"))
+    format!("[{}]", v.join(";"))
 }
 
 pub fn coq_case(c: &Case, o: &Outcome) -> String {
@@ -540,10 +654,15 @@ pub fn drive(c04: bool, header: &str, run_fn: &str) {
     let mut rng = Rng::new(a.seed);
     let mut w = CaseWriter::new(&a.out, header, "caseR", run_fn, 125);
     let (mut hangs, mut panics, mut pool_diffs, mut runs, mut kf_cases, mut bigs) = (0usize, 0usize, 0usize, 0usize, 0usize, 0usize);
-    let max_big = if a.tier == "thorough" { 6 } else { 2 };
     for idx in 0..a.cases {
         let mut r = rng.fork();
-        let c = gen_case(&mut r, &a.tier, c04, bigs < max_big);
+        // stateless placement (replayable with --only): a structured large input every 250 cases
+        // (at most one per shard of 125), a large input of a random family every 750
+        let c = if idx % 250 == 60 {
+            gen_big_structured(&mut r, idx / 250)
+        } else {
+            gen_case(&mut r, &a.tier, c04, idx % 750 == 400)
+        };
         if let Some(o) = a.only {
             if o != idx {
                 continue;
